@@ -419,7 +419,14 @@ func (c *Ctx) isMembershipFn(f *ssa.Function) (bool, []string) {
 		return false, []string{"not a 2-parameter function"}
 	}
 	lp := len(f.Params)
-	listP, elemP := fmt.Sprintf("$%d", lp-2), fmt.Sprintf("$%d", lp-1)
+	// (list, wanted) in either order: the list is the slice-typed one of the last two parameters
+	li, ei := lp-2, lp-1
+	if _, isSl := f.Params[li].Type().Underlying().(*types.Slice); !isSl {
+		if _, isSl2 := f.Params[ei].Type().Underlying().(*types.Slice); isSl2 {
+			li, ei = ei, li
+		}
+	}
+	listP, elemP := c.Path(f.Params[li], nil), c.Path(f.Params[ei], nil)
 	chk := &GCheck{Name: "element == wanted", NoDescend: true, MatchCmp: func(c *Ctx, b *ssa.BinOp, env Env) (bool, bool) {
 		if b.Op != token.EQL && b.Op != token.NEQ {
 			return false, false
@@ -746,10 +753,15 @@ func (c *Ctx) rejectionReasons(f *ssa.Function, env Env, boolFalse bool, depth i
 					}
 					if cl != nil {
 						if g := cl.Call.StaticCallee(); g != nil && inModule(g) && g.Blocks != nil {
-							for _, r := range c.rejectionReasons(g, c.calleeEnv(&cl.Call, g, env), false, depth+1) {
+							sub := c.rejectionReasons(g, c.calleeEnv(&cl.Call, g, env), false, depth+1)
+							for _, r := range sub {
 								set[r] = true
 							}
-							return
+							if len(sub) > 0 {
+								return
+							}
+							// (a callee that only hands a library's verdict on has no reasons of its own: the condition
+							// itself is the reason)
 						}
 					}
 				}
@@ -888,9 +900,13 @@ func (c *Ctx) constSetTests(g *ssa.Function, env Env, isX func(path string) bool
 				}
 				out = append(out, t)
 			case *ssa.Call:
-				if cal := x.Call.StaticCallee(); cal != nil && len(x.Call.Args) == 2 && isX(c.Path(x.Call.Args[1], env)) {
+				if cal := x.Call.StaticCallee(); cal != nil && len(x.Call.Args) == 2 {
+					mList, mWanted := memberArgs(x)
+					if !isX(c.Path(mWanted, env)) {
+						continue
+					}
 					if isM, _ := c.isMembershipFn(cal); isM {
-						if ks, lit := literalOf(x.Call.Args[0]); lit {
+						if ks, lit := literalOf(mList); lit {
 							out = append(out, constSetTest{set: ks, member: boolEdgesT(x, true), pos: x.Pos(), blk: b})
 						}
 					}
@@ -1024,4 +1040,55 @@ func cellValue(v ssa.Value) ssa.Value {
 		return last
 	}
 	return v
+}
+
+// schemaRef: the decoded request of a per-type parse function — what a decoding helper hands back for the request
+// parameter, or a struct of the request type that json.Unmarshal fills in place from it.
+type schemaRef struct {
+	SC   string        // path of the decoded request
+	call *ssa.Call     // the call of the decoding helper (nil when decoded in place)
+	dec  *ssa.Function // the function that holds the json.Unmarshal: the helper, or the parse function itself
+	typ  types.Type
+}
+
+func (c *Ctx) requestSchema(f *ssa.Function, typeSub string) *schemaRef {
+	for _, cl := range findCalls(f, func(cl *ssa.Call) bool {
+		a := declArgs(cl)
+		return len(a) == 1 && c.Path(a[0], nil) == "$1" && strings.Contains(typeShort(cl.Type()), typeSub)
+	}) {
+		var t types.Type
+		if tup, ok := cl.Type().(*types.Tuple); ok && tup.Len() > 0 {
+			t = derefT(tup.At(0).Type())
+		}
+		return &schemaRef{SC: c.Path(cl, nil) + "#0", call: cl, dec: cl.Call.StaticCallee(), typ: t}
+	}
+	for _, cl := range findCalls(f, func(cl *ssa.Call) bool {
+		g := cl.Call.StaticCallee()
+		return g != nil && g.String() == "encoding/json.Unmarshal" && len(cl.Call.Args) == 2 && c.Path(cl.Call.Args[0], nil) == "$1"
+	}) {
+		tgt := cl.Call.Args[1]
+		if mi, ok := tgt.(*ssa.MakeInterface); ok {
+			tgt = mi.X
+		}
+		if al, ok := tgt.(*ssa.Alloc); ok && strings.Contains(typeShort(al.Type()), typeSub) {
+			return &schemaRef{SC: c.Path(al, nil), dec: f, typ: derefT(al.Type())}
+		}
+	}
+	return nil
+}
+
+// memberArgs: for a two-argument call of a membership function (list, wanted in either order) — which argument is the
+// list that is searched and which the value looked for.
+func memberArgs(cl *ssa.Call) (list, wanted ssa.Value) {
+	a := cl.Call.Args
+	if len(a) != 2 {
+		return nil, nil
+	}
+	if _, isSl := a[0].Type().Underlying().(*types.Slice); isSl {
+		return a[0], a[1]
+	}
+	if _, isSl := a[1].Type().Underlying().(*types.Slice); isSl {
+		return a[1], a[0]
+	}
+	return a[0], a[1]
 }
